@@ -3,12 +3,13 @@
    encoding/json is a pair of parameters: every theorem holds for ALL marshal / unmarshal
    functions, all values and all destinations. *)
 From Flyt Require Import Values Accessors Bind BindCorr BindProofs.
+From Flyt Require Import C16Glue.
 
 Theorem C16_no_panic :
   forall bytes jerr marshal unmarshal,
     (forall v d, fst (bind_result bytes jerr marshal unmarshal v d) <> BPanic) /\
     (forall o d, fst (bind_store bytes jerr marshal unmarshal o d) <> BPanic).
-Proof. intros. split; [apply no_panic_result|apply no_panic_store]. Qed.
+Proof. exact C16_no_panic_glue. Qed.
 Print Assumptions C16_no_panic.
 
 (* a nil result value, a missing key, a nil, non-pointer or nil-pointer destination: an error of
